@@ -182,14 +182,15 @@ def run(ctx):
         small = ddmin(list(ops), persists) if reproduced else list(ops)
         mm, jpath = R.replay(small, "final")
         shown = [m for m in mm if (m[1] == obligation if want_model_only else m[1] not in MODEL_ONLY)] or mm
-        last_op = small[-1].split() if small else []
-        # the operation that fails is the one whose id the first shown mismatch carries
-        rec = classify(last_op)
-        for cand_op in reversed(small):
-            c = classify(cand_op.split())
-            if c["tags"]:
-                rec = c
-                break
+        # the operation that fails is the one announced (P line) under the id of the first shown mismatch
+        announced = {}
+        for line in open(jpath, errors="replace"):
+            if line.startswith("P "):
+                t = line.rstrip("\n").split(" ", 2)
+                announced[t[1]] = t[2]
+        fail_id = shown[0][0] if shown else None
+        fail_op = announced.get(fail_id, small[-1] if small else "")
+        rec = classify(fail_op.split())
         obl_names = sorted(set(o for _, o, _ in shown)) or [obligation]
         if not rec["tags"]:
             # failures of the position-level probes belong to the bisection functions, whatever ran before
@@ -276,6 +277,13 @@ def run(ctx):
     # 2. the classes of the known findings, probed on purpose (they must not hide anything else) ----
     j, v = R.pipe(["--kf", "1", "--first", "0", "--last", "6"], "kf")
     kf_mm = examine(j, v, "known-finding probes")
+    # which classes does the library of this tree still get wrong?  (measured, per probe history)
+    failing_hist = set(hist_of(i) for i, _, _ in mismatches(v))
+    probe_of = {1: ["h0", "h1"], 2: ["h2", "h3"], 3: ["h4"], 4: ["h5"]}
+    repaired = [k for k, hs in sorted(probe_of.items()) if not any(h in failing_hist for h in hs)]
+    rep_arg = ["--repaired", ",".join(str(k) for k in repaired)] if repaired else []
+    ctx.cov["known_finding_probes"] = {"KF-C16-%d" % k: ("repaired: class exercised in the seeded histories" if k in repaired
+                                                          else "present: class avoided by the generator") for k in probe_of}
 
     # 3. seeded histories -----------------------------------------------------------------------------
     n_hist = 1200 if ctx.tier == "quick" else 15000
@@ -293,7 +301,7 @@ def run(ctx):
     crashes = 0
     for first in range(0, n_hist, chunk):
         last = min(n_hist, first + chunk)
-        j, v = R.pipe(["--seed", str(ctx.seed), "--first", str(first), "--last", str(last)], "run%d" % first)
+        j, v = R.pipe(["--seed", str(ctx.seed), "--first", str(first), "--last", str(last)] + rep_arg, "run%d" % first)
         n_mm += examine(j, v, "seed %d histories %d..%d" % (ctx.seed, first, last - 1))
         prev_rs = None
         for line in open(j, errors="replace"):
